@@ -327,6 +327,8 @@ UPGRADER:
 		case stateStatusBefore:
 			switch c {
 			case ' ':
+				// further spaces in front of the reason-phrase.
+				continue
 			case '\r':
 				// empty reason-phrase.
 				p.Processor.OnStatus(p, p.statusCode, "")
@@ -337,13 +339,12 @@ UPGRADER:
 				// a bare LF does not end the status line.
 				return ErrCRExpected
 			default:
-				if isAlpha(c) {
-					start = i
-					p.nextState(stateStatus)
-				}
+				// the reason-phrase may start with any visible character,
+				// not only with a letter.
+				start = i
+				p.nextState(stateStatus)
 				continue
 			}
-			return ErrInvalidHTTPStatus
 		case stateStatus:
 			switch c {
 			case ' ':
